@@ -497,6 +497,15 @@ def into_response_tables(d):
             d.problems.append("into_msg: arm %s does not rebuild the same variant: %s" % (pat, a["body"][:80]))
             continue
         kinds.append(COSMOS_KINDS[name])
+        feats = []
+        for at in a.get("attrs", []):
+            if at.startswith("cfg("):
+                fm = re.fullmatch(r'cfg\(feature="(\w+)"\)', at)
+                if fm:
+                    feats.append(fm.group(1))
+                else:
+                    d.problems.append("into_msg: arm %s carries a cfg the translator cannot classify: %s" % (pat, at))
+        d.conv_cfg = getattr(d, "conv_cfg", []) + [(COSMOS_KINDS[name], feats)]
     if not saw_custom:
         d.problems.append("into_msg: the Custom arm is not the documented error")
     fn = d.fn("rt:into_response.rs", "SubMsg", "into_msg")
@@ -855,6 +864,9 @@ def generate(dump_lines):
     o.append("def publishedRule : Nat := %d" % prule)
     o.append("/-- message kinds `IntoMsg::into_msg` has a converting arm for (all cargo features of the harness enabled) -/")
     o.append("def convertible : List Sylvia.Runtime.MsgKind := %s" % llist("." + k for k in conv))
+    o.append("/-- the cargo features each converting arm of `into_msg` is compiled under -/")
+    o.append("def convertibleCfg : List (Sylvia.Runtime.MsgKind × List Str) := %s" % llist(
+        "(.%s, %s)" % (k, llist(lstr(f) for f in fs)) for k, fs in getattr(d, "conv_cfg", [])))
     o.append("/-- does `ReplyData::merge` take the data parameter from a later method when the first one has none? -/")
     o.append("def replyDataFromLater : Bool := %s" % ("true" if later else "false"))
     o.append("/-- code templates: (site, literal identifiers in path-root position, literal identifiers declared as generic parameters,")
